@@ -10,6 +10,7 @@ CONSTANTS
   MaxArr = 1000
   MaxRestart = 1000
   MaxCheck = 1000
+  MaxReorg = 1000
   Race = TRUE
   Fix <- CodeFix
   Mut = ""
